@@ -42,15 +42,15 @@ func (m *collection) statsSegmentsLOCKED(rv *CollectionStats) {
 	var sssClean *SegmentStackStats
 
 	if m.stackDirtyTop != nil {
-		sssDirtyTop = m.stackDirtyTop.Stats()
+		sssDirtyTop = m.stackDirtyTop.statsWithChildren()
 	}
 
 	if m.stackDirtyMid != nil {
-		sssDirtyMid = m.stackDirtyMid.Stats()
+		sssDirtyMid = m.stackDirtyMid.statsWithChildren()
 	}
 
 	if m.stackDirtyBase != nil {
-		sssDirtyBase = m.stackDirtyBase.Stats()
+		sssDirtyBase = m.stackDirtyBase.statsWithChildren()
 	}
 
 	if m.stackClean != nil {
